@@ -751,7 +751,7 @@ send-failure injections on OTHER links) such that
 
 * the attempt stays pending after every event (no REG2 accepted, no REG_ERR, not abandoned),
 * no send failure and no socket re-creation failure is injected for the pending link's conn id (none
-  is queued at the start, no `failNext` / `failBind` event for it),
+  is queued at the start, no `failNext` / `failAfter` / `failBind` event for it),
 * housekeeping ticks carry a positive clock.
 
 Then the reconnect branch re-sent REG1 to the pending uplink at most ONCE: the stored deadline is `D`
@@ -766,6 +766,7 @@ theorem C07_abandon_bound (s0 : Srtla.Sys.Sys F) (h0 : Startup s0) (evs1 evs2 : 
     (hnb : (runS s0 evs1).failBind.contains l.core.connId = false)
     (hun : Unanswered i (runS s0 evs1) evs2)
     (hev : ∀ e ∈ evs2, e ≠ .failNext l.core.connId ∧ ∀ now, e = .hk now → 0 < now)
+    (heva : ∀ e ∈ evs2, ∀ k, e ≠ .failAfter l.core.connId k)
     (hevb : ∀ e ∈ evs2, e ≠ .failBind l.core.connId)
     (hnr1 : Srtla.Sys.NoReload evs1) (hnr2 : Srtla.Sys.NoReload evs2) :
     (runS s0 (evs1 ++ evs2)).reg.pending = some i ∧
@@ -773,7 +774,7 @@ theorem C07_abandon_bound (s0 : Srtla.Sys.Sys F) (h0 : Startup s0) (evs1 evs2 : 
       ∃ t, 0 < t ∧ t < D ∧ (runS s0 (evs1 ++ evs2)).reg.pendingTimeoutAt = t + 4000) ∧
     (runS s0 (evs1 ++ evs2)).reg.pendingTimeoutAt < D + 4000 ∧
     ∀ pre now post, evs2 = pre ++ Srtla.Sys.Ev.hk now :: post → now < D + 3999 := by
-  obtain ⟨hA, hticks⟩ := abandon_bound h0 i D l evs2 evs1 hnr1 hnr2 hp hD hl hnf hnb hun hev hevb
+  obtain ⟨hA, hticks⟩ := abandon_bound h0 i D l evs2 evs1 hnr1 hnr2 hp hD hl hnf hnb hun hev heva hevb
   refine ⟨hA.pending, ?_, hA.deadline_lt, hticks⟩
   obtain ⟨l', -, -, h | ⟨t, a, b, c, -⟩⟩ := hA.link
   · exact Or.inl h
@@ -806,6 +807,10 @@ example : (runS exShell ([.uplink 4000 1 ngp] ++ [.hk 5100, .client 5200 exData,
     0 8000 ((runS exShell [.uplink 4000 1 ngp]).links[0]'(by decide +kernel)) (by decide +kernel) (by decide +kernel)
     (List.getElem?_eq_getElem _)
     (by decide +kernel) (by decide +kernel) ⟨by decide +kernel, by decide +kernel, by decide +kernel, trivial⟩
+    (by
+      intro e he
+      simp only [List.mem_cons, List.not_mem_nil, or_false] at he
+      rcases he with rfl | rfl | rfl <;> simp)
     (by
       intro e he
       simp only [List.mem_cons, List.not_mem_nil, or_false] at he
